@@ -30,6 +30,8 @@ type G struct {
 	prio    int
 	sim     *Sim
 	timeout bool // set when a simulated wait ended by deadline
+	holdUntil int // generation mode: not chosen before this step while other goroutines can run (delay-bounded scheduling)
+	holdSeen  int
 }
 
 func (g *G) ID() int { return g.id }
@@ -50,6 +52,7 @@ type Config struct {
 	Horizon    time.Duration // simulated idle time after which OnIdle is consulted
 	KeepLog    bool
 	CondRandom bool // Signal wakes a tape-chosen waiter instead of the oldest
+	HoldPermille int // with YieldAfterUnlock: a goroutine that has just released a lock is, with this probability, held back for 5..84 steps while others can run (finds code that needs a lock-free window to stay undisturbed for long)
 	YieldAfterUnlock bool // Unlock/RUnlock are scheduling points too: a goroutine can be preempted right after releasing a lock (exposes code that relies on nothing happening between an unlock and the next statement)
 	PoolPolicy int  // see pool.go
 	MapPolicy  int  // see maprange.go
@@ -504,6 +507,28 @@ func (s *Sim) choose(cands []*G) int {
 		return t.Next(n + 1)
 	}
 	idx := 0
+	if s.cfg.HoldPermille > 0 {
+		if l := s.last; l != nil && l.parked && l.holdSeen != s.steps && (l.site == "unlock" || l.site == "runlock") {
+			l.holdSeen = s.steps
+			if t.raw(1000) < s.cfg.HoldPermille {
+				l.holdUntil = s.steps + 5 + t.raw(80)
+				s.mu.Lock()
+				s.stats["sched.holds_after_unlock"]++
+				s.mu.Unlock()
+			}
+		}
+		var free []int
+		for i, g := range cands {
+			if g.holdUntil <= s.steps {
+				free = append(free, i)
+			}
+		}
+		if len(free) > 0 && len(free) < n {
+			idx = free[t.raw(len(free))]
+			t.put(idx)
+			return idx
+		}
+	}
 	if s.cfg.TimeAdvPct > 0 && t.raw(100) < s.cfg.TimeAdvPct {
 		idx = n
 	} else {
